@@ -168,12 +168,18 @@ Theorem C09_gcc_derived_entries_wrap : forallb (fun b => b) gcc_derived_base_has
 Proof. exact gcc_derived_entries_wrap. Qed.
 Print Assumptions C09_gcc_derived_entries_wrap.
 
-(* ... but not the generic entry `cc` (--cc cc, CC=cc): a gcc or clang installed under that name compiles without
-   -fwrapv and the wrap idioms change their value (known finding, replayed by the wrap stream with --cc cc;
-   proposed repair harness/C09/proposed_repairs/02-generic-cc-gnu-base-flags.diff) *)
-Theorem C09_generic_cc_wraps_refuted : ~ generic_cc_wraps_full.
-Proof. exact generic_cc_wraps_refuted. Qed.
-Print Assumptions C09_generic_cc_wraps_refuted.
+(* ... and the generic entry `cc` (--cc cc, CC=cc): a gcc or clang installed under that name gets gcc's base flags
+   since /repo b8b86ad (scraped from ccompiler.lua; before, it compiled without -fwrapv and the wrap idioms changed
+   their value: the former witness is still replayed by the wrap stream with --cc cc and must agree) *)
+Theorem C09_generic_cc_wraps : generic_cc_wraps_full.
+Proof. exact generic_cc_wraps_ok. Qed.
+Print Assumptions C09_generic_cc_wraps.
+
+(* the entry's own flags are empty: it wraps exactly through that rule *)
+Theorem C09_generic_cc_wraps_needed : generic_cc_base_has_fwrapv = false ->
+  (generic_cc_wraps = true <-> generic_cc_gets_gnu_base = true /\ gcc_base_has_fwrapv = true).
+Proof. exact generic_cc_wraps_needed. Qed.
+Print Assumptions C09_generic_cc_wraps_needed.
 
 (* the plain operators are UB-free in the dialect the base flags select; they are not without -fwrapv *)
 Theorem C09_plain_ops_defined_with_base_flags : forall t a b,
